@@ -178,6 +178,7 @@ fn gen_junk(rng: &mut Rng) -> Value {
 }
 
 struct Stats {
+  junk_allowed: bool,
   multi_parent_docs: usize,
   null_slots: usize,
   single_objects: usize,
@@ -195,7 +196,7 @@ fn gen_leaf(rng: &mut Rng, kind: Kind, nullable: bool, top: bool, st: &mut Stats
     2 | 3 | 4 => {
       let n = rng.below(4) as usize;
       let mut v: Vec<Value> = (0..n).map(|_| gen_scalar(rng, kind)).collect();
-      if !top && rng.chance(1, 4) {
+      if !top && st.junk_allowed && rng.chance(1, 4) {
         v.push(gen_junk(rng));
         st.junk += 1;
       }
@@ -613,6 +614,14 @@ fn corpus_world() -> (Vec<Prop>, Vec<BTreeMap<String, Value>>, Vec<Filter>) {
       fs.push(Filter::And(vec![nest("c", nest("r", eq("b", b))), nest("c", nest("r", eq("b", "p")))]));
     }
   }
+  for a in ["alice", "bob"] {
+    for b in ["p", "q"] {
+      // a Nested directly inside a Nested (nested_filter_passes), under Or / Not
+      fs.push(nest("c", Filter::And(vec![eq("a", a), Filter::Or(vec![nest("r", eq("b", b))])])));
+      fs.push(nest("c", Filter::And(vec![eq("a", a), Filter::Not(Box::new(nest("r", eq("b", b))))])));
+      fs.push(nest("c", Filter::Or(vec![Filter::And(vec![eq("a", a), Filter::Or(vec![nest("r", eq("b", b))])])])));
+    }
+  }
   fs.push(nest("c", Filter::Not(Box::new(eq("a", "alice")))));
   fs.push(nest("c", nest("r", Filter::Not(Box::new(eq("b", "p"))))));
   fs.push(nest("c", Filter::And(vec![])));
@@ -627,7 +636,25 @@ fn main() {
   let worlds = args.n.max(1);
   let filters_per_world = if thorough { 160 } else { 70 };
 
+  // does add_document accept a number inside the array of a nested keyword property?  (It did
+  // before nested leaves were type-checked; the model handles such elements either way.)
+  let junk_allowed = {
+    let props = vec![Prop::Obj {
+      name: "c".into(),
+      nullable: true,
+      fields: vec![Prop::Leaf { name: "a".into(), kind: Kind::Kw, nullable: true }],
+    }];
+    let dir = slv::fixtures::scratch();
+    let idx = IndexBuilder::create(dir.path(), real_schema(&props), slv::fixtures::opts(dir.path(), StorageType::Filesystem))
+      .expect("create probe index");
+    let mut w = idx.writer().expect("writer");
+    let d = json!({"_id": "probe", "c": [{"a": ["x", 1]}]});
+    let ok = w.add_document(&slv::fixtures::doc(d)).is_ok();
+    w.rollback().ok();
+    ok
+  };
   let mut st = Stats {
+    junk_allowed,
     multi_parent_docs: 0,
     null_slots: 0,
     single_objects: 0,
@@ -764,7 +791,7 @@ fn main() {
         "docs_with_child_arrays_under_several_parents": st.multi_parent_docs,
         "null_entries_in_nested_arrays": st.null_slots, "single_object_nested_values": st.single_objects,
         "empty_nested_arrays": st.empty_arrays, "multi_valued_leaves": st.multi_valued,
-        "junk_array_elements": st.junk, "objects_at_depth_3": st.depth3_objects,
+        "junk_array_elements": st.junk, "junk_elements_accepted_by_validation": st.junk_allowed, "objects_at_depth_3": st.depth3_objects,
         "nested_clauses": fst.nested, "nested_inside_nested": fst.nested_in_nested,
         "and_with_sibling_nested_same_path": fst.sibling_same_path, "not_nodes": fst.not, "or_nodes": fst.or,
         "ill_typed_filters": fst.ill_typed,
